@@ -278,7 +278,13 @@ def result_terminated(prog, func, pidx=0, _memo=None, _depth=0):
                 for i, a in enumerate(args):
                     if a is not None and into(a) and i < len(t.params) and 'const' not in t.params[i]['ct'].split('*')[0]:
                         ok, _ = result_terminated(prog, t, i, _memo, _depth + 1)
-                        return 'term' if ok else 'dirty'
+                        if not ok:
+                            return 'dirty'
+                        # a callee that can return without having touched the buffer leaves it as it was: an
+                        # unterminated buffer stays unterminated on that path
+                        if _memo.get(('skips', t.key, i)):
+                            return st
+                        return 'term'
             return st
         if e.k == 'BinaryOperator' and e['op'] == '=':
             l = strip(e.ch[0])
@@ -288,10 +294,25 @@ def result_terminated(prog, func, pidx=0, _memo=None, _depth=0):
         if e.k == 'ReturnStmt':
             if st == 'dirty' and bad[0] is None:
                 bad[0] = e
+            if st == 'clean':
+                skips[0] = True
         return st
 
+    skips = [False]
     order = {'clean': 0, 'term': 1, 'dirty': 2}
-    C.forward_dataflow(func, 'clean', transfer, lambda a, b: a if order[a] >= order[b] else b)
+    # 'clean' must survive a join with 'term' for the "may return untouched" summary: track it separately
+    def transfer2(st, e):
+        # st = (state, may_be_untouched)
+        s0, un = st
+        s1 = transfer(s0, e)
+        if e.k == 'ReturnStmt' and un:
+            skips[0] = True
+        if s1 != s0 and s1 in ('term', 'dirty') and not (e.k == 'CallExpr' and s1 == s0):
+            un = False
+        return (s1, un)
+    C.forward_dataflow(func, ('clean', True), transfer2,
+                       lambda a, b: ((a[0] if order[a[0]] >= order[b[0]] else b[0]), a[1] or b[1]))
     res = (bad[0] is None, bad[0])
     _memo[key] = res
+    _memo[('skips', func.key, pidx)] = skips[0]
     return res
